@@ -678,11 +678,11 @@ func (h *c39Hist) checkCanonical(rt c39T, img c39Image, chain *BlockChain, db et
 			below = common.Hash{}
 			continue
 		}
-		if b, ok := h.byHash[got]; ok && b.ParentHash() == below && img.point.label == "sethead" && c39Known(c39ClassSetHeadAbove) {
+		if b, ok := h.byHash[got]; ok && (b.ParentHash() == below || below == (common.Hash{})) && img.point.label == "sethead" && c39Known(c39ClassSetHeadAbove) {
 			// known finding: SetHead lowers the head markers block by block but deletes the
 			// number->hash entries only in its final batch; a crash in between leaves entries of
-			// the old chain (still parent-linked to the new head) above the head header, and
-			// startup does not remove them
+			// the old chain above the head header (possibly after a gap where frozen entries
+			// were truncated), and startup does not remove them
 			h.excluded++
 			below = got
 			continue
